@@ -14,4 +14,6 @@ typedef struct fr_stats { uint64_t executed; uint32_t deaths; const char *cap; }
 void fr_run(const fr_cfg *c, uint64_t lo, uint64_t hi, fr_stats *st);
 extern int vf_violation_sink_fd;                 /* child side: soft violations are piped to the parent */
 extern uint64_t fr_current_idx;
+void fr_note(uint64_t v);                        /* child: progress inside an execution (e.g. frame number) */
+extern uint64_t fr_last_note;                    /* parent: the note of the execution that died */
 #endif
